@@ -360,7 +360,7 @@ impl Decl {
         let gen = if !self.generic {
             ""
         } else if self.mac == Mac::Unsized {
-            "<T: UnsizedGenerics>"
+            "<T: star_frame::unsize::impls::UnsizedGenerics>"
         } else if self.kind == Kind::Union {
             "<T: Copy>"
         } else {
